@@ -23,12 +23,14 @@ struct Sub {
     static const rtosc::Ports ports;
 };
 struct Sub2 { int a_rather_long_parameter_name; int x; Sub2() : a_rather_long_parameter_name(0), x(0) {} static const rtosc::Ports ports; };
+struct Odd { int pi_min, pi_max; float pf_min, pf_max; int ai_min[3]; float af_max[3]; int po_max; int po_pre; int ao_pre[3]; Odd() { memset((void *)this, 0, sizeof *this); } static const rtosc::Ports ports; };
 struct App {
     char pc; int pi; int pi_nb; int pi_neg; int pi_frac;
     float pf; float pf_log; float pf_nb; float pf_unit;
     bool pt; int po; int po_b; Opt4 po_e; int po_gap; int po_ooo; int pi7; float af24[24]; bool at12[12]; int ao11[11]; float pf_sp; int pi_sp; int po_sp;
     char ps[16]; char ps4[4];
-    float af[4]; int ai[5]; bool at[3]; int ao[3];
+    float af[4]; int ai[5]; int aw[3]; bool at[3]; int ao[3];
+    Odd odd;
     Sub sub; Sub subs[3]; Sub *psub; Sub subs12[12]; Sub2 sub2s[12];
     Sub psub_store;
     App() { memset((void *)this, 0, sizeof *this); psub = &psub_store; pi_neg = -20; pf_log = 1.0f; }   // every field starts inside its declared range
@@ -42,6 +44,19 @@ inline const rtosc::Ports Sub::ports = {
     rToggle(st, "sub toggle"),
     rParam(sc, "sub char"),
     rArrayF(saf, 2, rLinear(-2, 2), "sub float array"),
+};
+#undef rObject
+#define rObject Odd
+inline const rtosc::Ports Odd::ports = {
+    rParamI(pi_min, rMap(min, 0), "int param with a lower bound only"),
+    rParamI(pi_max, rMap(max, 10), "int param with an upper bound only"),
+    rParamF(pf_min, rMap(min, -0.5), "float param with a lower bound only"),
+    rParamF(pf_max, rMap(max, 1.5), "float param with an upper bound only"),
+    rArrayI(ai_min, 3, rMap(min, 0), "int array with a lower bound only"),
+    rArrayF(af_max, 3, rMap(max, 1.5), "float array with an upper bound only"),
+    rOption(po_max, rOptions(alpha, beta, gamma), rMap(max, 2), "option with an upper bound only"),
+    rOption(po_pre, rOptions(saw, sawtooth, sq, square, s), "option whose earlier symbols are prefixes of later ones"),
+    rArrayOption(ao_pre, 3, rOptions(tri, triangle, t), rLinear(0, 2), "option array with prefix symbols"),
 };
 #undef rObject
 #define rObject Sub2
@@ -80,8 +95,10 @@ inline const rtosc::Ports App::ports = {
     rString(ps4, 4, "short string"),
     rArrayF(af, 4, rLinear(-1, 1), "float array"),
     rArrayI(ai, 5, rLinear(-20, 100), "int array"),
+    rArrayI(aw, 3, rLinear(-1000, 1000), "int array with a range wider than a char"),
     rArrayT(at, 3, "toggle array"),
     rArrayOption(ao, 3, rOptions(xx, yy, zz), rLinear(0, 2), "option array"),
+    rRecur(odd, "ports with one bound only, option symbols that are prefixes of each other"),
     rRecur(sub, "sub tree"),
     rRecurs(subs, 3, "sub tree array"),
     rRecurp(psub, "sub tree pointer"),
@@ -147,6 +164,7 @@ inline const std::vector<Leaf> &leaves() {
     L.push_back({"/ps4", K_STRING, false, false, "", "", {}, 4, [](App &a) { return vs(a.ps4); }});
     for (int i = 0; i < 4; i++) L.push_back({"/af" + std::to_string(i), K_PARAM_F, true, true, "-1", "1", {}, 0, [i](App &a) { return vf(a.af[i]); }});
     for (int i = 0; i < 5; i++) L.push_back({"/ai" + std::to_string(i), K_ARR_I, true, true, "-20", "100", {}, 0, [i](App &a) { return vi(a.ai[i]); }});
+    for (int i = 0; i < 3; i++) L.push_back({"/aw" + std::to_string(i), K_ARR_I, true, true, "-1000", "1000", {}, 0, [i](App &a) { return vi(a.aw[i]); }});
     for (int i = 0; i < 3; i++) L.push_back({"/at" + std::to_string(i), K_TOGGLE, false, false, "", "", {}, 0, [i](App &a) { return vb(a.at[i]); }});
     for (int i = 0; i < 3; i++) L.push_back({"/ao" + std::to_string(i), K_OPTION, true, true, "0", "2", o3, 0, [i](App &a) { return vi(a.ao[i]); }});
     add_sub_leaves(L, "/sub/", [](App &a) { return &a.sub; });
@@ -165,6 +183,15 @@ inline const std::vector<Leaf> &leaves() {
     L.push_back({"/pf_sp", K_PARAM_F, true, true, "-3", "3", {}, 0, [](App &a) { return vf(a.pf_sp); }});
     L.push_back({"/pi_sp", K_PARAM_I, true, true, "-7", "7", {}, 0, [](App &a) { return vi(a.pi_sp); }});
     L.push_back({"/po_sp", K_OPTION, true, true, "0", "2", {"alpha", "beta", "gamma"}, 0, [](App &a) { return vi(a.po_sp); }});
+    L.push_back({"/odd/pi_min", K_PARAM_I, true, false, "0", "", {}, 0, [](App &a) { return vi(a.odd.pi_min); }});
+    L.push_back({"/odd/pi_max", K_PARAM_I, false, true, "", "10", {}, 0, [](App &a) { return vi(a.odd.pi_max); }});
+    L.push_back({"/odd/pf_min", K_PARAM_F, true, false, "-0.5", "", {}, 0, [](App &a) { return vf(a.odd.pf_min); }});
+    L.push_back({"/odd/pf_max", K_PARAM_F, false, true, "", "1.5", {}, 0, [](App &a) { return vf(a.odd.pf_max); }});
+    for (int i = 0; i < 3; i++) L.push_back({"/odd/ai_min" + std::to_string(i), K_ARR_I, true, false, "0", "", {}, 0, [i](App &a) { return vi(a.odd.ai_min[i]); }});
+    for (int i = 0; i < 3; i++) L.push_back({"/odd/af_max" + std::to_string(i), K_PARAM_F, false, true, "", "1.5", {}, 0, [i](App &a) { return vf(a.odd.af_max[i]); }});
+    L.push_back({"/odd/po_max", K_OPTION, false, true, "", "2", {"alpha", "beta", "gamma"}, 0, [](App &a) { return vi(a.odd.po_max); }});
+    L.push_back({"/odd/po_pre", K_OPTION, false, false, "", "", {"saw", "sawtooth", "sq", "square", "s"}, 0, [](App &a) { return vi(a.odd.po_pre); }});
+    for (int i = 0; i < 3; i++) L.push_back({"/odd/ao_pre" + std::to_string(i), K_OPTION, true, true, "0", "2", {"tri", "triangle", "t"}, 0, [i](App &a) { return vi(a.odd.ao_pre[i]); }});
     return L;
 }
 
@@ -209,7 +236,7 @@ struct Node {
         Val r; *was_clamped = false;
         switch (l.kind) {
         case K_PARAM_C: { int x = (int)(signed char)in.v.i; int lo = atoi(l.mn), hi = atoi(l.mx); if (x < lo) { x = lo; *was_clamped = true; } if (x > hi) { x = hi; *was_clamped = true; } return vi(x); }
-        case K_ARR_I: { int x = (int)(signed char)in.v.i; int lo = atoi(l.mn), hi = atoi(l.mx); if (x < lo) { x = lo; *was_clamped = true; } if (x > hi) { x = hi; *was_clamped = true; } return vi(x); }
+        case K_ARR_I:   /* int storage: every int is representable */
         case K_PARAM_I: { int x = in.v.i; if (l.has_min && x < atoi(l.mn)) { x = atoi(l.mn); *was_clamped = true; } if (l.has_max && x > atoi(l.mx)) { x = atoi(l.mx); *was_clamped = true; } return vi(x); }
         case K_PARAM_F: { float x = in.v.f; if (l.has_min && x < (float)atof(l.mn)) { x = (float)atof(l.mn); *was_clamped = true; } if (l.has_max && x > (float)atof(l.mx)) { x = (float)atof(l.mx); *was_clamped = true; } return vf(x); }
         case K_TOGGLE: return vb(in.tag == 'T');
@@ -315,7 +342,7 @@ struct Node {
                 switch (l.kind) { case K_PARAM_C: ok = in.tag == 'c'; break; case K_PARAM_I: case K_ARR_I: ok = in.tag == 'i'; break; case K_PARAM_F: ok = in.tag == 'f'; break;
                     case K_TOGGLE: ok = in.tag == 'T' || in.tag == 'F'; break; case K_OPTION: ok = in.tag == 'i' || in.tag == 'c' || in.tag == 'S'; break; case K_STRING: ok = in.tag == 's'; break; }
                 if (!ok) return false;
-                if ((l.kind == K_PARAM_C || l.kind == K_ARR_I) && (in.v.i < -128 || in.v.i > 127)) return false;
+                if (l.kind == K_PARAM_C && (in.v.i < -128 || in.v.i > 127)) return false;
                 if (l.kind == K_PARAM_F && std::isnan(in.v.f)) return false;
             }
             deliver(L[i], (int)i, in, msg);
